@@ -317,4 +317,104 @@ THEOREM AdmissibleStatesHolds == SpecG => []AdmissibleStates
   <1>3. InvG => AdmissibleStates
     BY DEF InvG, AdmRet, AdmissibleStates, Returned
   <1> QED BY <1>1, <1>2, <1>3, PTL DEF SpecG
+
+(***************************************************************************)
+(* Third theorem (C01: "the series start at the stated initial amount,      *)
+(* composition and temperature ... time[k] = k x step length"; C03: "in     *)
+(* isothermal models the feed temperature never changes"), for every N.     *)
+(* Eq is only assumed to be reflexive.                                      *)
+(***************************************************************************)
+ASSUME EqRefl == \A a, sc : Eq(a, a, sc)
+
+HeadLoop == /\ m[1] = run.m0 /\ x[1] = run.x0w /\ T[1] = run.T0
+            /\ time = [k \in 1..run.N |-> TimeAt(run, k - 1)]
+HeadRet == /\ m[1] = run.m0 /\ x[1] = run.x0w /\ T[1] = run.T0
+           /\ time = [k \in 1..run.N |-> TimeAt(run, k - 1)]
+           /\ (run.iso => \A k \in 1..run.N : T[k] = run.T0)
+InvH == /\ Inv
+        /\ (pc \in {"loop", "raised"} => HeadLoop)
+        /\ (pc = "returned" => HeadRet)
+
+LEMMA StartHead == ASSUME NEW r, NEW p0, GoodRun(r), Start(r, p0) PROVE HeadLoop'
+  BY DEF Start, HeadLoop
+
+LEMMA StepHead == ASSUME NEW e, pc = "loop", LoopInv, HeadLoop, Step(e) PROVE HeadLoop'
+  <1>1. run' = run /\ time' = time /\ Len(J) \in Nat /\ Len(m) = Len(J) + 1 /\ Len(x) = Len(J) + 1
+    BY AppendLen DEF Step, LoopInv
+  <1>2. m'[1] = m[1] /\ x'[1] = x[1]
+    BY <1>1, AppendKeeps DEF Step, LoopInv
+  <1>3. T'[1] = T[1]
+    <2>1. CASE run.iso
+      BY <2>1 DEF Step
+    <2>2. CASE ~run.iso
+      <3>1. Len(T) = Len(J) + 1 /\ T' = Append(T, TempNext(m[Len(J) + 1], x[Len(J) + 1], T[Len(J) + 1], run, e))
+        BY <2>2 DEF Step, LoopInv
+      <3> QED BY <3>1, <1>1, AppendKeeps DEF LoopInv
+    <2> QED BY <2>1, <2>2
+  <1> QED BY <1>1, <1>2, <1>3 DEF HeadLoop
+
+LEMMA FinishHead == ASSUME pc = "loop", LoopInv, HeadLoop, Finish PROVE HeadRet'
+  <1>1. run' = run /\ time' = time /\ Len(J) = run.N /\ run.N \in Nat \ {0} /\ Len(m) = run.N + 1 /\ Len(x) = run.N + 1
+    BY DEF Finish, LoopInv, GoodRun
+  <1>2. m'[1] = m[1] /\ x'[1] = x[1]
+    <2>1. m' = Pop(m) /\ x' = Pop(x)
+      BY DevNone DEF Finish
+    <2> QED BY <2>1, <1>1, PopKeeps DEF LoopInv
+  <1>3. T'[1] = run.T0 /\ (run.iso => \A k \in 1..run.N : T'[k] = run.T0)
+    <2>1. CASE run.iso
+      BY <2>1, <1>1 DEF Finish
+    <2>2. CASE ~run.iso
+      <3>1. T' = Pop(T) /\ Len(T) = run.N + 1
+        BY <2>2, <1>1 DEF Finish, LoopInv
+      <3>2. T'[1] = T[1]
+        BY <3>1, <1>1, PopKeeps DEF LoopInv
+      <3> QED BY <3>2, <2>2 DEF HeadLoop
+    <2> QED BY <2>1, <2>2
+  <1> QED BY <1>1, <1>2, <1>3 DEF HeadRet, HeadLoop
+
+THEOREM HeadInductive == InvH /\ [Next]_vars => InvH'
+  <1> SUFFICES ASSUME InvH, [Next]_vars PROVE InvH'
+    OBVIOUS
+  <1>0. Inv'
+    BY InvInductive DEF InvH
+  <1>1. CASE UNCHANGED vars
+    BY <1>0, <1>1 DEF vars, InvH, HeadLoop, HeadRet
+  <1>2. ASSUME NEW r, NEW p0, GoodRun(r), Start(r, p0) PROVE InvH'
+    <2>1. pc' = "loop"
+      BY <1>2 DEF Start
+    <2> QED BY <1>0, <1>2, <2>1, StartHead DEF InvH
+  <1>3. ASSUME NEW e, Step(e) PROVE InvH'
+    <2>1. pc = "loop" /\ pc' = "loop"
+      BY <1>3 DEF Step
+    <2> QED BY <1>0, <1>3, <2>1, StepHead DEF InvH, Inv
+  <1>4. ASSUME NEW e, Raise(e) PROVE InvH'
+    <2>1. pc = "loop" /\ pc' = "raised" /\ UNCHANGED <<run, time, m, x, T, J, y, P, Qe, Qc>>
+      BY <1>4 DEF Raise
+    <2> QED BY <1>0, <2>1 DEF InvH, HeadLoop
+  <1>5. CASE Finish
+    <2>1. pc = "loop" /\ pc' = "returned"
+      BY <1>5 DEF Finish
+    <2> QED BY <1>0, <1>5, <2>1, FinishHead DEF InvH, Inv
+  <1> QED BY <1>1, <1>2, <1>3, <1>4, <1>5 DEF Next
+
+THEOREM Init0Holds == Spec => [](Init0 /\ IsoConst /\ TimeGrid)
+  <1>1. Init => InvH
+    BY DEF Init, InvH, Inv
+  <1>2. InvH => (Init0 /\ IsoConst /\ TimeGrid)
+    <2> SUFFICES ASSUME InvH PROVE Init0 /\ IsoConst /\ TimeGrid
+      OBVIOUS
+    <2>1. CASE pc = "returned"
+      <3>1. HeadRet
+        BY <2>1 DEF InvH
+      <3>2. Init0 /\ IsoConst
+        BY <2>1, <3>1 DEF HeadRet, Init0, IsoConst, Returned
+      <3>3. \A k \in 1..run.N : time[k] = Mul(run.dt, Num(k - 1))
+        BY <3>1, DevNone DEF HeadRet, TimeAt
+      <3>4. TimeGrid
+        BY <3>3, EqRefl DEF TimeGrid
+      <3> QED BY <3>2, <3>4
+    <2>2. CASE pc # "returned"
+      BY <2>2 DEF Init0, IsoConst, TimeGrid, Returned
+    <2> QED BY <2>1, <2>2
+  <1> QED BY <1>1, <1>2, HeadInductive, PTL DEF Spec
 =============================================================================
